@@ -7,3 +7,5 @@ import Rp2.Props.C13
 #print axioms Rp2.C13.model_report_always_generated
 #print axioms Rp2.C13.lot_labels
 #print axioms Rp2.C13.model_running_sums_over_whole_history
+#print axioms Rp2.C13.model_each_fraction_one_detail_row
+#print axioms Rp2.C13.model_running_sum_per_shown_fraction
